@@ -137,18 +137,30 @@ theorem ChansOk.set {chans dcs q rcq} (h : ChansOk chans dcs q rcq) {i : Nat} {c
     · exact h.sid d hd s hs
     · exact h.sid c (List.mem_of_getElem? hi) s (h1 ▸ hs)
 
-/-- `e'` differs from `e` at most in the channel objects, the stream table, the channel queue and the
-send side, and no channel object disappeared.  (What the data plane helpers may touch.) -/
+/-- `e'` differs from `e` at most in the channel objects, the stream table, the channel queue, the send side and
+the stream reset bookkeeping (`_data_channel_flush` ends with `_transmit_reconfig`), and no channel object
+disappeared.  (What the data plane helpers may touch.) -/
 def DataFrame (e e' : Ep) : Prop :=
-  ∃ cs dcs q tx, e' = { e with chans := cs, dataChannels := dcs, dcQueue := q, tx := tx } ∧
+  ∃ cs dcs q tx rq rr rs rt,
+    e' = { e with chans := cs, dataChannels := dcs, dcQueue := q, tx := tx, reconfigQueue := rq,
+                  reconfigRequest := rr, reconfigRequestSeq := rs, rcTimer := rt } ∧
     e.chans.length ≤ cs.length
 
-theorem DataFrame.refl (e : Ep) : DataFrame e e := ⟨e.chans, e.dataChannels, e.dcQueue, e.tx, rfl, Nat.le_refl _⟩
+theorem DataFrame.refl (e : Ep) : DataFrame e e :=
+  ⟨e.chans, e.dataChannels, e.dcQueue, e.tx, e.reconfigQueue, e.reconfigRequest, e.reconfigRequestSeq, e.rcTimer,
+   rfl, Nat.le_refl _⟩
 
 theorem DataFrame.trans {a b c : Ep} (h1 : DataFrame a b) (h2 : DataFrame b c) : DataFrame a c := by
-  obtain ⟨cs, dcs, q, tx, rfl, hl⟩ := h1
-  obtain ⟨cs', dcs', q', tx', rfl, hl'⟩ := h2
-  exact ⟨cs', dcs', q', tx', rfl, Nat.le_trans hl hl'⟩
+  obtain ⟨cs, dcs, q, tx, rq, rr, rs, rt, rfl, hl⟩ := h1
+  obtain ⟨cs', dcs', q', tx', rq', rr', rs', rt', rfl, hl'⟩ := h2
+  exact ⟨cs', dcs', q', tx', rq', rr', rs', rt', rfl, Nat.le_trans hl hl'⟩
+
+theorem DataFrame.rwnd {e e' : Ep} (h : DataFrame e e') : e'.rwnd = e.rwnd := by
+  obtain ⟨cs, dcs, q, tx, rq, rr, rs, rt, rfl, _⟩ := h; rfl
+theorem DataFrame.ins {e e' : Ep} (h : DataFrame e e') : e'.inStreams = e.inStreams := by
+  obtain ⟨cs, dcs, q, tx, rq, rr, rs, rt, rfl, _⟩ := h; rfl
+theorem DataFrame.assoc {e e' : Ep} (h : DataFrame e e') : e'.assoc = e.assoc := by
+  obtain ⟨cs, dcs, q, tx, rq, rr, rs, rt, rfl, _⟩ := h; rfl
 
 theorem WF.setChan {e : Ep} (h : WF e) {i : Nat} {c c' : Chan} (hi : e.chans[i]? = some c) (hs : Chan.Same c c') :
     WF { e with chans := e.chans.set i c' } :=
